@@ -107,7 +107,9 @@ RULES = [("C10.1", rule_inventory)]
 # ---------------------------------------------------------------------------------------
 ALLOC = {"std::vec::from_elem": 1, "std::vec::Vec::with_capacity": 0, "zksync_consensus_network::noise::bytes::Buffer::new": 0,
          "std::string::String::with_capacity": 0, "std::collections::VecDeque::with_capacity": 0, "std::vec::Vec::resize": 1, "std::vec::Vec::reserve": 1,
-         "bit_vec::BitVec::from_elem": 0, "zksync_consensus_roles::validator::messages::v2::consensus::Signers::new": 0}
+         "bit_vec::BitVec::from_elem": 0, "zksync_consensus_roles::validator::messages::v2::consensus::Signers::new": 0,
+         "bit_vec::BitVec::grow": 1, "bit_vec::BitVec::reserve": 1, "bit_vec::BitVec::with_capacity": 0, "std::iter::repeat_n": 1, "std::vec::Vec::resize_with": 1,
+         "std::collections::VecDeque::resize": 1, "std::collections::VecDeque::reserve": 1, "std::string::String::reserve": 1, "[T]::repeat": 1, "str::repeat": 1}
 WIRE = ("u16::from_le_bytes", "u32::from_le_bytes", "u64::from_le_bytes", "u16::from_be_bytes", "u32::from_be_bytes", "u64::from_be_bytes")
 
 
@@ -117,8 +119,35 @@ def _strip_cast(t):
     return t
 
 
-def _wire_sized(t):
-    return any(x[0] == "call" and x[1] in WIRE for x in subterms(t))
+def _wire_sized(t, f=None):
+    if any(x[0] == "call" and x[1] in WIRE for x in subterms(t)):
+        return True
+    # inside a message decoder: a number taken from a field of the decoded proto (not the length of received data, which
+    # the frame limit bounds) is chosen by the peer
+    if f is not None and _is_decoder(f):
+        def under_len(u):
+            return u[0] == "call" and u[1].rsplit("::", 1)[-1] in ("len", "count", "size_hint")
+        def walk(u, in_len):
+            if u[0] == "field" or u[0] == "param":
+                r = u
+                while r[0] in ("field", "downcast", "deref"):
+                    r = r[1]
+                if r[0] == "param" and r[1] == 1 and u[0] == "field" and not in_len:
+                    return True
+            if u[0] == "call":
+                il = in_len or under_len(u)
+                return any(walk(a, il) for a in u[2])
+            return any(walk(a, in_len) for a in u[1:] if isinstance(a, tuple))
+        return walk(t, False)
+    return False
+
+
+def _is_decoder(f):
+    r = f
+    while r.parent is not None:
+        r = r.parent
+    it = r.item
+    return r.name == "read" and (it.impl_trait or "").endswith(("ProtoFmt", "ProtoRepr"))
 
 
 def rule_alloc_bounded(ctx):
@@ -142,7 +171,7 @@ def rule_alloc_bounded(ctx):
             if base[0] == "const" or (S[0] == "const"):
                 const += 1
                 continue
-            if not _wire_sized(S):
+            if not _wire_sized(S, f):
                 local += 1
                 continue
             wire += 1
